@@ -329,6 +329,11 @@ def main():
 
     # ---------------------------------------------------------------- (H) drivers
     jobs = []
+    if replay and replay.get("script") is not None:
+        spath = os.path.join(work, "scripts.ndjson")
+        with open(spath, "w") as sf:
+            sf.write(json.dumps(replay["script"]) + "\n")
+        replay["driver"] = dict(replay["driver"], args=["replay", "--scripts", spath])
     drivers = (P["drivers"][tier] + gen_drivers) if not replay else [replay["driver"]]
     for di, d in enumerate(drivers):
         shards = d.get("shards", 1) if not replay else 1
@@ -431,8 +436,17 @@ def main():
         j = v["job"]
         h = hashlib.sha1(("%s|%s|%s|%s" % (pid, v["clause"], j["seed"], v["line"])).encode()).hexdigest()[:10]
         path = os.path.join(ROOT, "replays", "%s-%s.json" % (pid, h))
+        script = None
+        if j["driver"]["args"][0] == "replay":      # keep the model-generated behaviour itself: self-contained replay
+            try:
+                with open(j["driver"]["args"][2]) as sf:
+                    for i, sl in enumerate(sf):
+                        if i == v["run"]:
+                            script = json.loads(sl)
+            except Exception:
+                pass
         json.dump({"property": pid, "clause": v["clause"], "call": v["call"], "line": v["line"], "run": v["run"],
-                   "driver": j["driver"], "seed": j["seed"], "tier": tier,
+                   "driver": j["driver"], "seed": j["seed"], "tier": tier, "script": script,
                    "how": "tools/check.py %s --replay %s  (re-runs the driver with this seed on the current tree and re-validates)" % (pid, os.path.relpath(path, ROOT)),
                    "events_up_to_violation": excerpt}, open(path, "w"), indent=1)
         log("VIOLATION property=%s replay=%s" % (pid, path))
